@@ -41,6 +41,7 @@ theorem value_sound (U : Universe) (f : Nat → List V → V) (sem : Nat → V) 
 def OutOK (sem : Nat → V) : Op → Out V → Prop
   | .value i _, .val r => ∀ v, r = some v → v = sem i
   | .chainForce _ _ _ _ order, .vals _ rs => ∀ (k : Nat) t v, order[k]? = some t → rs[k]? = some (some v) → v = sem t
+  | .chainForceF _ _ _ order _, .vals _ rs => ∀ (k : Nat) t v, order[k]? = some t → rs[k]? = some (some v) → v = sem t
   | _, _ => True
 
 def AllOK (sem : Nat → V) : List Op → List (Out V) → Prop
@@ -75,6 +76,44 @@ theorem valueAll_sound (U : Universe) (f : Nat → List V → V) (sem : Nat → 
         cases k with
         | zero => simp at ht hrk; subst ht; exact hr v hrk
         | succ k => simp at ht hrk; exact hrs k t' v ht hrk
+
+theorem valueAllStop_sound (U : Universe) (f : Nat → List V → V) (sem : Nat → V) (fails : Nat → Bool)
+    (hsem : IsSem U f sem) (hloc : LocDeterminesComp U sem) (fuel : Nat) :
+    ∀ (ts : List Nat) (s s' : St V) (rs : List (Option V)), Good U sem s → valueAllStop U f fails fuel s ts = (s', rs) →
+      Good U sem s' ∧ ∀ (k : Nat) t v, ts[k]? = some t → rs[k]? = some (some v) → v = sem t := by
+  intro ts
+  induction ts with
+  | nil =>
+    intro s s' rs hg h
+    simp [valueAllStop] at h
+    obtain ⟨rfl, rfl⟩ := h
+    exact ⟨hg, fun k t v ht => by simp at ht⟩
+  | cons t ts ih =>
+    intro s s' rs hg h
+    simp only [valueAllStop] at h
+    cases hv : value U f fails fuel s t with
+    | mk s1 r =>
+      obtain ⟨hg1, hr⟩ := value_sound U f sem fails hsem hloc fuel s t s1 r hg hv
+      cases r with
+      | none =>
+        simp only [hv] at h
+        cases h
+        refine ⟨hg1, ?_⟩
+        intro k t' v ht hrk
+        cases k with
+        | zero => simp at hrk
+        | succ k => simp at hrk
+      | some w =>
+        cases hva : valueAllStop U f fails fuel s1 ts with
+        | mk s2 rs' =>
+          simp only [hv, hva] at h
+          cases h
+          obtain ⟨hg2, hrs⟩ := ih s1 _ _ hg1 hva
+          refine ⟨hg2, ?_⟩
+          intro k t' v ht hrk
+          cases k with
+          | zero => simp at ht hrk; subst ht; exact hr v (by rw [hrk])
+          | succ k => simp at ht hrk; exact hrs k t' v ht hrk
 
 /-- **C01, machine level**: over any history, from any good store (e.g. the empty one), every
 returned value is the semantic value and the invariant is preserved -/
@@ -122,6 +161,14 @@ theorem history_sound (U : Universe) (f : Nat → List V → V) (sem : Nat → V
                 exact valueAll_sound U f sem _ hsem hloc fuel order _ _ rs hgF hva
             · cases hst
               exact ⟨hgF, by simp [OutOK]⟩
+          | chainForceF nodes S del order failing =>
+            simp only [step] at hst
+            have hgF := good_forceAll U sem del (descendants U S nodes []) s hg
+            cases hva : valueAllStop U f (fun j => failing.contains j) fuel (forceAll U del s (descendants U S nodes [])) order with
+            | mk sv rs =>
+              simp only [hva] at hst
+              cases hst
+              exact valueAllStop_sound U f sem _ hsem hloc fuel order _ _ rs hgF hva
           | inspect i =>
             simp only [step] at hst
             cases hst
